@@ -432,7 +432,8 @@ def acceptsParams (reg : List EquivRec) (equivalence : Option String) (names : L
     | none => []
   names.all (fun n => accepted.any (fun q => q.1 == n))
 
-/-- the reading, in `target`, of the quantity equivalent to the reading `xv` in `u`.
+/-- the reading, in `target`, of the quantity equivalent to the reading `xv` in `u`, and the unit
+    the result is labelled with.
     `supplied` are the keyword arguments of the call (`mu=`, `gamma=`); they reach `_convert`
     only on the `via` route, where a keyword `_convert` does not accept is a `TypeError`
     and a missing one takes the default of the signature.
@@ -440,16 +441,23 @@ def acceptsParams (reg : List EquivRec) (equivalence : Option String) (names : L
     the final step converts to `target`, this is the formula evaluated on the SI magnitude
     followed by the ordinary conversion from the coherent SI unit of the new dimension.
     An input unit with an offset (°C, °F) is refused by the first multiply/divide/subtract/add
-    that touches it.  `powRefuses` says what `power`/`sqrt` do with such a unit in the library
-    being checked (`Unit.__pow__`; regenerated on every run): `some err` = they raise `err`,
-    `none` = they drop the offset silently, so that a chain that only ever raises the input to a
-    power (`effective_temperature`, temperature → flux) works on the bare reading. -/
-def convertValue [OfBits K] (powRefuses : Option Err) (pre : Prefixes K) (t : Lut K)
+    that touches it.  `powRefuses` says what becomes, in the library being checked, of such a
+    reading that a chain raises to a power (regenerated probe `np.multiply(k, np.power(1 °C, 4))`):
+    `some err` = `power` itself (`Unit.__pow__`) or the multiply/divide applied to the power raises
+    `err`, `none` = the offset is dropped silently, so that a chain that only ever raises the input
+    to a power (`effective_temperature`, temperature → flux) works on the bare reading. -/
+def convertState [OfBits K] (powRefuses : Option Err) (pre : Prefixes K) (t : Lut K)
     (reg : List EquivRec) (consts supplied : List (String × K)) (m : Mode) (u : UnitV K) (xv : K)
-    (target : UnitV K) (equivalence : Option String) : Except Err K :=
+    (target : UnitV K) (equivalence : Option String) : Except Err (K × UnitV K) :=
+  -- the last step differs by entry point: the copying forms end in `in_units(conv_unit)`, the
+  -- in-place forms in `self.convert_to_units(conv_unit)` (`values *= factor; subtract offset`)
+  let finish (w : UnitV K) (y : K) : Except Err (K × UnitV K) :=
+    match m with
+    | .copy => inUnits pre t w y target
+    | .inplace => convertToUnits pre t (y, w) target
   match inUnitsRoute reg m u.dim target.dim equivalence with
   | .error e => .error e
-  | .ok .plain => toValue pre t u xv target
+  | .ok .plain => finish u xv
   | .ok (.via f) =>
     if !(acceptsParams reg equivalence (supplied.map (·.1))) then .error .TypeError
     else
@@ -461,7 +469,13 @@ def convertValue [OfBits K] (powRefuses : Option Err) (pre : Prefixes K) (t : Lu
         let si := xv * u.scale
         let y := f.eval (mkEnv consts params si)
         let mid : UnitV K := ⟨UExpr.one, 1, 0, target.dim, true⟩
-        toValue pre t mid y target
+        finish mid y
+
+/-- the numbers alone (`to_value`; what the driver reports) -/
+def convertValue [OfBits K] (powRefuses : Option Err) (pre : Prefixes K) (t : Lut K)
+    (reg : List EquivRec) (consts supplied : List (String × K)) (m : Mode) (u : UnitV K) (xv : K)
+    (target : UnitV K) (equivalence : Option String) : Except Err K :=
+  (convertState powRefuses pre t reg consts supplied m u xv target equivalence).map (·.1)
 
 end numbers
 
